@@ -49,6 +49,17 @@ Theorem C08_getitem_int_slice_full (x : tt R) ix fs shp g :
             forall idx', length idx' = length shp -> entry y idx' = entry x (g idx').
 Proof. exact (getitem_int_slice_full x ix fs shp g). Qed.
 
+(* ... and for a full tuple of integers only (negative allowed): x[i1, ..., id] is the scalar the dense index expression selects
+   (dgi returns the empty shape and the source index g []) - every order, mode sizes, ranks; the removal of ALL cores by reduce_dims
+   (every remapped mode has size 1, nothing is excluded) is covered by reduce_dims_none_kept *)
+Theorem C08_getitem_all_int (x : tt R) ix fs shp g :
+  wf x -> item_fs (shape x) ix = Some fs -> dgi ix (shape x) = Some (shp, g) -> existsb is_slice ix = false ->
+  shp = [] /\ getitem_tuple x ix = GS (entry x (g [])).
+Proof. exact (getitem_all_int x ix fs shp g). Qed.
+Theorem C08_reduce_dims_none_kept (x : tt R) excl : wf x -> nkept 0 x excl = 0%nat ->
+  exists c, reduce_dims x excl = [c] /\ nn c = 1%nat /\ e3 c 0%nat 0%nat 0%nat = entry x (repeat O (length x)).
+Proof. exact (reduce_dims_none_kept x excl). Qed.
+
 (* a leading / trailing Ellipsis is exactly the tuple with the missing full slices written out: the composite theorem applies to
    the expanded tuple (the tensor branch expands no Ellipsis elsewhere; two of them are rejected, C18) *)
 Theorem C08_getitem_leading_ellipsis (x : tt R) (t : list ixitem) : forallb (fun it => negb (is_ell it)) t = true ->
@@ -66,5 +77,7 @@ Print Assumptions C08_reduce_dims_full.
 Print Assumptions C08_slice_pos_in_range.
 Print Assumptions C08_norm_int_in_range.
 Print Assumptions C08_getitem_int_slice_full.
+Print Assumptions C08_getitem_all_int.
+Print Assumptions C08_reduce_dims_none_kept.
 Print Assumptions C08_getitem_leading_ellipsis.
 Print Assumptions C08_getitem_trailing_ellipsis.
